@@ -63,6 +63,26 @@ CHECKS = {
    technique='fault injection with enumeration: for each generated scenario every single store call (put / upload_shard) of the session fails in turn (exhaustive per scenario), plus generated multi-fault sets and completion delays under concurrent cleaning; oracle = ordering invariant over the call log (shard only after its xorbs), error propagation, success implies downloadable',
    text='Per generated scenario the fault-free run fixes the list of store calls and each is then failed once (exhaustive over single faults), with further random multi-fault / delay plans; the call log must show every shard upload preceded by successful puts of all xorbs its records reference, an injected failure must surface as an error of add_data / finish / finalize, and a session reporting success must download byte-exactly. Fault enumeration is the right level: the property quantifies over which call fails.',
    note="Runs through the repository's local file-system store (LocalClient) wrapped in a tracing client injected through the guarded hook; configurations are process environments (debug-assertion builds read the size constants from HF_XET_*). Concurrent cleaning samples OS schedules."),
+ "C12": dict(level="exploration", design="3/C12",
+   technique='property-based testing with stateful histories: generated put / get / re-open / damage programs (bit bursts, truncation, extension, deletions, junk and cache-item-shaped names at every directory level, renames, swaps) and concurrent batches under a harness-owned schedule (guarded schedule points); oracle = virtual-xorb model (every chunk a pure function of key and index), panics caught, journaled child processes',
+   text="Every hit returned during generated histories (sequential, and 2-3 threads interleaved by generated schedules) must equal the slice of the key's virtual xorb; damaged / planted / renamed entries must turn into misses or errors after re-open; initialize, put and get must not panic. Exploration over histories, damage programs and schedules.",
+   note='Forged entries (consistent length+CRC identity under another name) are outside the fault model. The cache crate is built without its debug-only assertions (production semantics). Interleavings at schedule-point granularity.'),
+ "C13": dict(level="exploration", design="3/C13",
+   technique='schedule-controlled concurrency testing: generated operation batches for 2-3 threads run under generated schedules (one thread at a time, schedule = shrinkable Vec<u8>), plus bounded-exhaustive enumeration of ALL grant sequences for five canonical racing pairs; oracle = accounting invariants from the guarded read-only snapshot and the directory listing at every quiescent point',
+   text='At every quiescent point the reported item count and byte total must equal the tracked entries, every cache file on disk must be tracked, after reading entries back totals must equal the files on disk (entries that lost their file to a racing deletion excepted, as the property allows), and the byte total never exceeds the capacity after a put; re-opening with the same capacity preserves this. Canonical pairs are enumerated exhaustively at schedule-point granularity, larger batches are sampled.',
+   note='Interleavings at the granularity of the guarded schedule points (outside the state lock, around every file-system effect), not instructions. Eviction choice seeded through the guarded hook. No item larger than the capacity.'),
+ "C17": dict(level="exploration", design="3/C17",
+   technique='property-based testing: generated reconstruction plans (terms, enclosing fetch ranges, byte ranges trimmed as a server does) executed by RemoteClient against an in-process HTTP range server with generated response delays; oracle = slice of concatenated term data; differential sequential vs parallel writer and no-cache / cold / warm cache; NUM_CONCURRENT_RANGE_GETS varied per child process',
+   text='Each generated plan is reconstructed four times (both writers, cache off / cold / warm) and the output file and reported length are compared with the requested slice of the concatenated term data computed independently. Exploration over plans, byte ranges, delays and concurrency settings.',
+   note='URLs unique per (xorb, fetch range); byte ranges inside the file; loopback HTTP server stands in for the blob store; completion orders perturbed, not enumerated.'),
+ "C19": dict(level="fault_enumeration", design="3/C19",
+   technique='crash-point enumeration by system-call fault injection: the operation runs in a single-threaded child under strace; a dry run lists every mutating file-system call after a marker, then the child is re-run once per call with SIGKILL injected at the entry of exactly that call; oracle = recovery invariants evaluated on the re-opened directory (names match content, prior records retrievable, re-open succeeds)',
+   text="For each generated scenario (operation x prior history) EVERY point between two file-system effects of the operation is exercised - the process is killed at the entry of each mutating system call in turn - and the directory is then re-opened and checked. Exhaustive per scenario over crash points under exactly the property's crash model; scenarios are sampled.",
+   note='Process-stop model only (completed system calls persist). Relies on strace 6.1 injection semantics; each injected run is re-traced and must have died at the intended call, otherwise the point is skipped and counted.'),
+ "C20": dict(level="exploration", design="3/C20",
+   technique='property-based testing of event scripts: calls / gate releases / yields on a current-thread runtime with a paused virtual clock and a generated plan of yields at guarded points inside Group::work (deterministic, hangs detected by a virtual 1-hour timeout), and the same scripts on 2-4 worker multi-thread runtimes; oracle = invariants over the logged call intervals and task starts',
+   text="Each script's event log is checked: one task start per owning call, owners get their own outcome, every waiter's result is the outcome of an overlapping owner of the same key (value, error payload or panic notification), nobody hangs. Exploration over scripts and yield plans; liveness is decided on the virtual clock.",
+   note='Callers are not cancelled. Mode B samples OS schedules; a hang there is reported as inconclusive (exit 2).'),
 }
 
 ALL = ["C%02d" % i for i in range(1, 21)]
@@ -105,7 +125,7 @@ def main():
     json.dump(m, open("/verif/MANIFEST.json", "w"), indent=1)
     print("wrote MANIFEST.json with", len(checks), "checks")
 
-HOOK_COMMITS = ["78e340d"]
-FIX_COMMITS = ["05f0b8b"]
+HOOK_COMMITS = ["78e340d", "d44ea4a", "1cb7bec"]
+FIX_COMMITS = ["05f0b8b", "5c16ad3", "5bc8107", "76f58ba", "3a5804a", "6fcb3da", "54e1f35", "c02585d", "dc8f1a6"]
 if __name__ == "__main__":
     main()
